@@ -196,7 +196,8 @@ def _is_local(f: Func, name: str) -> bool:
 NONDET_CALLS = {"hash", "id", "random.random", "random.randint", "random.choice", "random.shuffle", "random.sample", "time.time", "time.time_ns",
                 "time.monotonic", "time.perf_counter", "datetime.datetime.now", "datetime.now", "datetime.datetime.utcnow", "uuid.uuid4", "uuid.uuid1",
                 "os.getcwd", "os.listdir", "os.getpid", "os.urandom", "os.getenv", "os.environ.get", "glob.glob", "secrets.token_bytes",
-                "set.pop", "os.scandir", "os.walk"}
+                "set.pop", "os.scandir", "os.walk", "as_completed", "concurrent.futures.as_completed", "concurrent.futures.ThreadPoolExecutor", "ThreadPoolExecutor",
+                "ProcessPoolExecutor", "concurrent.futures.ProcessPoolExecutor", "threading.Thread", "multiprocessing.Pool", "concurrent.futures.wait"}
 
 
 def rule_D6_nondet(tree: Tree) -> RuleResult:
@@ -222,6 +223,13 @@ def rule_D6_nondet(tree: Tree) -> RuleResult:
             r.ob(False, Finding("D6b", f"{f.key}:nondeterminism:{what.replace(' ', '-')}", f"{f.qualname}: {what} makes the export depend on something other than capture, secrets and options", f.module.line(n)))
         if not bad:
             r.ob(True)
+    # mutable default arguments anywhere in flow code (state that survives a run())
+    for f in sorted(reach, key=lambda x: x.key):
+        a = f.node.args
+        for d in list(a.defaults) + [x for x in a.kw_defaults if x is not None]:
+            if _is_mutable_literal(d):
+                r.instances += 1
+                r.ob(False, Finding("D6b", f"{f.key}:mutable-default", f"{f.qualname}: mutable default argument `{src(d, 40)}` is created once per process and keeps what an earlier call put into it", f.module.line(f.node)))
     # iteration over set-typed values
     set_attrs = _set_typed_attrs(tree)
     for f in sorted(reach, key=lambda x: x.key):
